@@ -18,7 +18,7 @@ import numpy as np
 from .. import compare, env, rng
 from ..storage import Storage, make_ths
 
-RULE = {'C09': 'seeded scenarios (two trace sets per run, 1-3 runs, batch rule, frame, 0-2 preprocesses, dtype, precision, worker counts per thread, '
+RULE = {'C09': 'seeded scenarios (two trace sets per run, 1-3 runs, batch rule, frame, 0-2 preprocesses, dtype per run and per set incl. 12/16-bit amplitudes, a non-integer float regime in several physical units, sets of up to 60 rows (a few: 200-1500 rows, 257-520 samples), precision, worker counts per thread, kernels run from their Python source in a quarter of the scenarios (interleavings inside the kernels), '
                'batch-rule flip) each executed under several seeded scheduling policies (uniform, sticky, starve-1/2, alternate, main-first/last, PCT, post-fault-uniform) at line granularity; fault scenarios inject a storage or '
                'preprocess failure in thread 1, 2 or both on the k-th batch, in one or two run() calls of the same object; non-trivial = at least one context switch between the accumulator '
                'threads while both were mid-container or a fault fired; distinct = distinct context-switch digests (sequence of (yield site, chosen thread) hand-overs)'}
